@@ -29,7 +29,7 @@ def _ev(*a, **k):
     return ev
 
 
-from ..symx import SymEval, Path, SymObj, Opaque, WouldRaise, is_zero
+from ..symx import SymEval, Path, SymObj, Opaque, WouldRaise, is_zero, module_aliases
 from .. import dims
 from ..dims import F
 
@@ -111,50 +111,45 @@ def working_units(ctx):
 def style_tables(ctx):
     fn = ctx.fn(ST, 'unit')
     loc = ST + '::unit'
-    arms = string_dispatch(fn.body, 'units')
-    styles = [k for k in arms if k != '__else__']
+    # the tables as the function builds them: unit(style) interpreted for every LAMMPS style (string building is concrete)
+    styles = ['lj', 'real', 'metal', 'si', 'cgs', 'electron', 'micro', 'nano']
+    try:
+        arms = string_dispatch(fn.body, 'units')
+        styles = styles + [k for k in arms if k != '__else__' and k not in styles]
+    except Exception:
+        pass
     ctx.floor('STYLE-DIM/styles', len(styles), 8)
-    # entries: params['key'] = 'literal'   (+ derived f-strings after the chain)
     tables = {}
     for st in styles:
+        ev = SymEval(module_aliases(ctx.mod(ST)))
+        ev.globals = {'OrderedDict': dict}
+        try:
+            live = [q for q in ev.run_fn(fn, [st], {}) if q.done == 'return']
+        except WouldRaise as e:
+            live = []
+        except Opaque as e:
+            raise AnalysisError('style.unit(%r): %s' % (st, e))
+        if len(live) != 1 or not isinstance(live[0].ret, dict):
+            ctx.ob('STYLE-DIM', loc, 'style %s is defined' % st, False, node=fn, key='%s defined' % st)
+            tables[st] = {}
+            continue
         tab = {}
-        for s in arms[st]:
-            if isinstance(s, ast.Assign) and isinstance(s.targets[0], ast.Subscript) and isinstance(s.targets[0].slice, ast.Constant):
-                if isinstance(s.value, ast.Constant):
-                    tab[s.targets[0].slice.value] = (s.value.value, s)
-                else:
-                    raise AnalysisError('style.unit: entry %s of %s is not a literal' % (norm(s.targets[0]), st))
+        for k, v in live[0].ret.items():
+            if not (v is None or isinstance(v, str)):
+                raise AnalysisError('style.unit(%r): entry %r is not text: %r' % (st, k, v))
+            tab[k] = (v, fn)
         tables[st] = tab
-    # derived entries after the dispatch: params['k'] = f"...{params['x']}..."
-    derived = {}
-    for s in fn.body:
-        if isinstance(s, ast.Assign) and isinstance(s.targets[0], ast.Subscript) and isinstance(s.targets[0].slice, ast.Constant) and isinstance(s.value, ast.JoinedStr):
-            derived[s.targets[0].slice.value] = (s.value, s)
-
-    def render(js, tab):
-        out = ''
-        for v in js.values:
-            if isinstance(v, ast.Constant):
-                out += v.value
-            elif isinstance(v, ast.FormattedValue) and isinstance(v.value, ast.Subscript) and isinstance(v.value.slice, ast.Constant):
-                k = v.value.slice.value
-                if k not in tab:
-                    raise KeyError(k)
-                out += str(tab[k][0])
-            else:
-                raise AnalysisError('style.unit: derived entry outside vocabulary: %s' % norm(js))
-        return out
+    try:
+        bad_style = [q for q in SymEval(module_aliases(ctx.mod(ST))).run_fn(fn, ['furlongs'], {}) if q.done == 'return']
+    except WouldRaise:
+        bad_style = []
+    ctx.ob('STYLE-DIM', loc, 'an unknown unit style is refused', not bad_style, node=fn, key='unknown style')
     nent = 0
     for st in styles:
         if st == 'lj':
-            ctx.ob('STYLE-DIM', loc, 'lj (reduced units) entries carry no unit', all(v[0] is None for v in tables[st].values()), node=fn, key='lj none')
+            ctx.ob('STYLE-DIM', loc, 'lj (reduced units) entries carry no unit', all(v[0] is None or 'None' in v[0] for v in tables[st].values()) and all(tables[st][k][0] is None for k in tables[st] if k in ('mass', 'length', 'time', 'energy')), node=fn, key='lj none')
             continue
         tab = dict(tables[st])
-        for k, (js, node) in derived.items():
-            try:
-                tab[k] = (render(js, tab), node)
-            except KeyError as e:
-                ctx.ob('STYLE-DIM', loc, '%s/%s can be derived' % (st, k), False, 'needs missing key %s' % e, node=node, key='%s/%s derived' % (st, k))
         for k, (v, node) in tab.items():
             if k not in dims.DIM:
                 ctx.ob('STYLE-DIM', loc, 'key %r of style %s names a known physical quantity' % (k, st), False, node=node, key='%s/%s known' % (st, k))
